@@ -25,6 +25,7 @@ import Lean.Data.Json
 import Acme.Driver.Util
 import Acme.Core.Import
 import Acme.Core.ImportNested
+import Acme.Spec.ExportImportNested
 
 namespace Acme.Driver.ImportD
 open Lean (Json)
@@ -160,18 +161,50 @@ def handleImport (payload : String) : String :=
     | .ok t => "ok " ++ showTree t
     | .error e => "err " ++ showErr e
 
+/-- both sides of `Acme.Props.C11Nested.export_import_nested` -/
+def roundN (t : ITree) : Bool :=
+  match importMsg (exportAny t) with
+  | .ok r => decide (r = normN t)
+  | .error _ => false
+
 def handleExport (payload : String) : String :=
   match Json.parse payload >>= dTree with
   | .error e => "bad-op " ++ e
   | .ok t =>
     match buildAny t with
-    | .ok t' => "ok " ++ showMsg (exportAny t')
+    | .ok t' =>
+      -- on the class of Acme.Props.C11Nested.export_import_nested both sides of the theorem are evaluated
+      if decide (ExpressibleN t') && !(roundN t') then
+        "THEOREM-VIOLATION export_import_nested"
+      else "ok " ++ showMsg (exportAny t')
+    | .error e => "err " ++ showErr e
+
+/-- `imp rtn <itree-json>`: class membership of the built tree (offline census of the stream's
+    trees; not used by the harness) -/
+def handleRtn (payload : String) : String :=
+  match Json.parse payload >>= dTree with
+  | .error e => "bad-op " ++ e
+  | .ok t =>
+    match buildAny t with
+    | .ok t' =>
+      let nested := if hasNested t' then "nested" else "flat"
+      let depth := (t'.top.map (fun x => match x with
+        | .sig _ => 0
+        | .mux n => (below t'.nested (t'.nested.length + 1) n).length)).foldl max 0
+      if decide (ExpressibleN t') then
+        if roundN t' then s!"in {nested} below={depth}"
+        else "THEOREM-VIOLATION export_import_nested"
+      else
+        match importMsg (exportAny t') with
+        | .ok r => s!"out {nested} below={depth} " ++ (if decide (r = normN t') then "round" else "differs")
+        | .error e => s!"out {nested} below={depth} refused:" ++ showErr e
     | .error e => "err " ++ showErr e
 
 def handle (args : List String) : String :=
   match args with
   | "import" :: payload :: _ => handleImport payload
   | "export" :: payload :: _ => handleExport payload
+  | "rtn" :: payload :: _ => handleRtn payload
   | _ => "bad-op"
 
 end Acme.Driver.ImportD
